@@ -319,6 +319,11 @@ def check_copies(prog, rep, tier):
             for k, v in kws.items():
                 kind, a = _self_attr_of_copy(prog, f, v)
                 if kind == "const":
+                    # a constant for a parameter that IS a stored field of the object (the class has a property of that name): the field is not copied but reset / rebuilt
+                    if k in prog.all_props(c) and not k.startswith("auto_"):
+                        rep.violate("R3-copies", construct, "the copy is constructed with %s=%s although the object stores %s: the copy does not carry the source's %s (it is reset or "
+                                    "rebuilt from the other fields, which need not give the same object)" % (k, dump(v), k, k), where(f, ctor), "%s=<copy of self.%s>" % (k, k), dump(v))
+                        good = False
                     continue
                 if kind == "other":
                     rep.unrec("R3-copies", construct, "keyword %s=%s not modelled" % (k, dump(v)[:50]))
